@@ -126,6 +126,42 @@ def encode (p : EncParams) (m : Msg) : Except Fault (List Byte) :=
 /-- the encoder of the tree under test -/
 def sendInActisense (m : Msg) : Except Fault (List Byte) := encode fixedParams m
 
+/-! ## Forwarding policy (`NMEA2000.cpp`: which messages reach `SendInActisenseFormat(ForwardStream)`) -/
+
+/-- `N2kMode` (0 `N2km_ListenOnly`, 1 `N2km_NodeOnly`, 2 `N2km_ListenAndNode`, 3 `N2km_SendOnly`,
+4 `N2km_ListenAndSend`) and the bits of `ForwardMode` -/
+structure FwdCfg where
+  mode : Nat
+  enable : Bool      -- EnableForward
+  own : Bool         -- SetForwardOwnMessages
+  knownOnly : Bool   -- SetForwardOnlyKnownMessages
+  system : Bool      -- SetForwardSystemMessages
+
+/-- `ForwardEnabled()` -/
+def forwardEnabled (f : FwdCfg) : Bool := f.enable && f.mode != 3
+
+/-- `ForwardMessage(const tN2kMsg&)` with `fwdt_Actisense`: is the message written
+(`isMySource` = `IsMySource(N2kMsg.Source)`) -/
+def forwardMsg (f : FwdCfg) (isMySource : Bool) : Bool :=
+  !(!forwardEnabled f || (!(f.own && isMySource) && f.mode == 1))
+
+/-- end of `SendMsg` (`dm_None`): `if ( ForwardOwnMessages() ) ForwardMessage(N2kMsg);` (source = own) -/
+def forwardOwn (f : FwdCfg) : Bool := f.own && forwardMsg f true
+
+/-- receive path of `ParseMessages`: `HandleReceivedSystemMessage` (`if ( ForwardSystemMessages() )
+ForwardMessage(msg)`, not in the send-only modes) else `ForwardMessage(const tN2kCANMsg&)`
+(`KnownMessage || !ForwardOnlyKnownMessages()`) -/
+def forwardRx (f : FwdCfg) (known system isMySource : Bool) : Bool :=
+  if system && !(f.mode == 3 || f.mode == 4) then f.system && forwardMsg f isMySource
+  else (known || !f.knownOnly) && forwardMsg f isMySource
+
+/-- what a forwarding decision puts on the forward stream -/
+def forwarded (decision : Bool) (m : Msg) : Except Fault (List Byte) :=
+  if decision then sendInActisense m else .ok []
+
+/-- `SendMsg` on an open node whose driver accepts every frame: refused only in listen-only mode -/
+def sendAccepted (f : FwdCfg) : Bool := f.mode != 0
+
 /-! ## Reader -/
 
 def maxBuf : Nat := 300
